@@ -342,4 +342,6 @@ def check(run, views, tier):
         include(run, c14, {cfg: crates}, tier, "|ipputil::")
         from . import c09
         include(run, c09, {cfg: {"ipp": F}}, tier, "R-ORDERLIST", "R-GROUPS", "R-ENDTAG")
+        from . import c10
+        include(run, c10, {cfg: {"ipp": F}}, tier, "PrintJob", "attribute-new")
         run.cfg = cfg
